@@ -62,6 +62,8 @@ fn leaves() -> Vec<Value> {
         Value::Number(1.5),
         Value::Number(f64::NAN),
         Value::Number(-0.0),
+        // equal as numbers, different as bit patterns (seed C20m: an encoding that compares elements with `==`)
+        Value::Number(0.0),
         Value::Number(f64::NEG_INFINITY),
         Value::Number(5e-324), Value::Number(-f64::MIN_POSITIVE / 2.0), Value::Number(f64::MIN_POSITIVE), Value::Number(f64::MAX),
         Value::String("a".to_symbol()),
@@ -103,6 +105,7 @@ fn wrap(inner: &[Value]) -> Vec<Value> {
             out.push(Value::Record(vec![("é".to_symbol(), b.clone()), ("".to_symbol(), a.clone()), ("b".to_symbol(), b.clone())]));
             out.push(Value::Tuple(vec![a.clone(), b.clone()]));
             out.push(Value::Array(vec![b.clone(), a.clone(), b.clone()]));
+            out.push(Value::Array(vec![a.clone(), b.clone()]));
         }
     }
     out
